@@ -2,6 +2,8 @@ SPECIFICATION Spec
 CONSTANTS
   StaleNegativeMemo = FALSE
   GuardIsInstance = FALSE
+  RawNames = {}
+  LinkDirnameUntranscoded = FALSE
   FullLen = 2
   CoreLen = 3
   UnivFull <- UFullQ
